@@ -18,7 +18,7 @@ TASK_TIMEOUT = 120
 
 
 def tasks(seed, tier):
-    return S.make_tasks('C04', seed, tier, 'determ')
+    return S.make_tasks('C04', seed, tier, 'determ', runs=20)     # projection-heavy runs cost more CPU: fewer per task
 
 
 def judge(rec):
